@@ -326,7 +326,7 @@ func checkC09(run *mon.Run, rng *mon.Rand, thorough bool) {
 		"C09.only_l1_tokens_withdrawable", "C09.response_sequence", "C09.burn_exact_signer_only", "C09.event_faithful"} {
 		run.Declare(c, 20)
 	}
-	hist := pick(thorough, 10, 120)
+	hist := pick(thorough, 10, 300)
 	steps := pick(thorough, 500, 1500)
 	for h := 0; h < hist && !run.TooMany(); h++ {
 		r := rng.Split()
